@@ -1,7 +1,8 @@
 //! C06 over the ghost algorithm: extending is absorbing one more occurrence of the root below a synthetic parent
 //! (the same occurrence step as for a repeated element inside one document), an element-less input changes nothing,
 //! and every occurrence step is monotone (nothing dropped, Optional never becomes Mandatory, multiple never becomes
-//! single, text never lost).  Order-independence and idempotence are NOT proved here (bounded stand-in only).
+//! single, text never lost), and - at one nesting level - the resulting schema depends only on the SET of occurrences
+//! absorbed (order independence and idempotence, corollary_occurrence_set_invariance).
 #![allow(unused_imports)]
 use vstd::prelude::*;
 use crate::element::Element;
@@ -68,6 +69,70 @@ pub proof fn corollary_attrs_monotone(a: Seq<Necessity<String>>, b: Seq<Necessit
         mand_in(spec_merge(a, b), x) ==> mand_in(a, x),
 {
     theorem_c15(a, b, x);
+}
+
+/// every occurrence of `a` is also in `b`
+pub open spec fn occs_subset(a: Seq<Option<Seq<RdItem>>>, b: Seq<Option<Seq<RdItem>>>) -> bool {
+    forall|i: int| 0 <= i < a.len() ==> b.contains(#[trigger] a[i])
+}
+/// the two occurrence lists contain the same occurrences (as sets): covers every permutation and every repetition
+pub open spec fn same_occurrences(a: Seq<Option<Seq<RdItem>>>, b: Seq<Option<Seq<RdItem>>>) -> bool {
+    occs_subset(a, b) && occs_subset(b, a)
+}
+proof fn lemma_subset_preds(a: Seq<Option<Seq<RdItem>>>, b: Seq<Option<Seq<RdItem>>>, m: String)
+    requires occs_subset(a, b),
+    ensures
+        all_have(b, m) ==> all_have(a, m),
+        none_multi(b, m) ==> none_multi(a, m),
+        some_has(a, m) ==> some_has(b, m),
+        some_text(a) ==> some_text(b),
+        a.len() > 0 ==> b.len() > 0,
+{
+    if all_have(b, m) {
+        assert forall|i: int| 0 <= i < a.len() implies occ_count(#[trigger] a[i], m) > 0 by {
+            assert(b.contains(a[i]));
+            let j = choose|j: int| 0 <= j < b.len() && b[j] == a[i];
+            assert(occ_count(b[j], m) > 0);
+        }
+    }
+    if none_multi(b, m) {
+        assert forall|i: int| 0 <= i < a.len() implies occ_count(#[trigger] a[i], m) <= 1 by {
+            assert(b.contains(a[i]));
+            let j = choose|j: int| 0 <= j < b.len() && b[j] == a[i];
+            assert(occ_count(b[j], m) <= 1);
+        }
+    }
+    if some_has(a, m) {
+        let i = choose|i: int| 0 <= i < a.len() && occ_count(#[trigger] a[i], m) > 0;
+        assert(b.contains(a[i]));
+        let j = choose|j: int| 0 <= j < b.len() && b[j] == a[i];
+        assert(occ_count(b[j], m) > 0);
+    }
+    if some_text(a) {
+        let i = choose|i: int| 0 <= i < a.len() && occ_text(#[trigger] a[i]);
+        assert(b.contains(a[i]));
+        let j = choose|j: int| 0 <= j < b.len() && b[j] == a[i];
+        assert(occ_text(b[j]));
+    }
+    if a.len() > 0 {
+        assert(b.contains(a[0]));
+    }
+}
+/// (C06, one nesting level) ORDER INDEPENDENCE AND IDEMPOTENCE: if the same node x absorbs two lists of occurrences that
+/// contain the same occurrences - in any order, any of them any number of times - the resulting schemas agree on every
+/// child name: present or not, Option or not, Vec or not, and on the text flag (as long as no counter saturated)
+pub proof fn corollary_occurrence_set_invariance(x: Option<GEl>, y1: GEl, y2: GEl, a: Seq<Option<Seq<RdItem>>>, b: Seq<Option<Seq<RdItem>>>, m: String)
+    requires
+        multi_post(x, y1, a, m), multi_post(x, y2, b, m), same_occurrences(a, b),
+        counts_below_max(y1.kids), counts_below_max(y2.kids),
+    ensures
+        y1.text_some == y2.text_some,
+        g_has(y1.kids, m) == g_has(y2.kids, m),
+        g_has(y1.kids, m) ==> (g_kid(y1.kids, m) is Mandatory) == (g_kid(y2.kids, m) is Mandatory),
+        g_has(y1.kids, m) ==> g_kid(y1.kids, m).val().standalone == g_kid(y2.kids, m).val().standalone,
+{
+    lemma_subset_preds(a, b, m);
+    lemma_subset_preds(b, a, m);
 }
 
 } // verus!
